@@ -8,6 +8,7 @@ args=[a for a in sys.argv[1:] if not a.startswith('--')]
 r=e1.analyse_tu('/verif/obligations/'+args[0], tier, args[1:], keep_ir='--keep' in sys.argv)
 if r['error']: print(r['error']); sys.exit(2)
 print('declared',len(r['declared']),'residual',len(r['residual']),r['pipelines_used'],r['wall_s'],'negctl',len(r['negctl_declared']),len(r['negctl_residual']), r.get('ir_dir',''))
+print('  trace:', r.get('residual_after_each_pipeline'))
 for k,v in sorted(Counter((x['id'],tuple(x['ints'])) for x in r['residual']).items()): print('  RESID',k)
 c=Counter(x['id'] for x in r['declared'])
 print('  declared ids:',dict(c))
